@@ -468,6 +468,9 @@ local ok, e = pcall(require, "nosuchmodule")
 note(tostring(ok))
 local f = loadstring("return 1 + 1")
 note(tostring(f()))
+-- the standard files belong to the process: a state cannot close them under the feet of the others
+local okc, ec = io.stdin:close()
+note("std:" .. tostring(okc) .. ":" .. tostring(ec) .. ":" .. io.type(io.stdin))
 -- a seeded random sequence is this state's own computation
 math.randomseed(ID)
 pause()
@@ -795,7 +798,7 @@ func (e *Engine) Run(t *core.Tape, cfg *core.Config, st *core.Stats) *core.Viola
 				return fail("solo-equivalence", "task %d %s computed something else than it computes alone\nconcurrent:\n  %s\nsolo:\n  %s\nprogram:\n%s", tk.id, tk.name, strings.Join(tailS(got, 25), "\n  "), strings.Join(tailS(tk.soloTrace, 25), "\n  "), tk.src)
 			}
 		case kLifecycle:
-			one := "E:'life',2870,2,8,'7','xxx'|E:'life-err',false,'x'|E:'deep',30,false,5,28|E:'vararg','1.1','1.1','3.3','1.1'|--- state %d closed|full:7, 3.14|42|x|\"a b\",<hello> <world>,4,1-2-5-8,94,2,false,2,rnd:true,false,userdata,true:true"
+			one := "E:'life',2870,2,8,'7','xxx'|E:'life-err',false,'x'|E:'deep',30,false,5,28|E:'vararg','1.1','1.1','3.3','1.1'|--- state %d closed|full:7, 3.14|42|x|\"a b\",<hello> <world>,4,1-2-5-8,94,2,false,2,std:nil:cannot close standard file:file,rnd:true,false,userdata,true:true"
 			want := fmt.Sprintf(one, 0) + "|" + fmt.Sprintf(one, 1) + "|" + fmt.Sprintf(one, 2)
 			if got := strings.Join(tk.trace, "|"); got != want || tk.err != "" {
 				return fail("solo-equivalence", "lifecycle task %d: trace %q error %q, want %q", tk.id, got, tk.err, want)
